@@ -193,6 +193,15 @@ func segment(units []AUnit, mode string, r *rand.Rand) [][]byte {
 			}
 			segs = append(segs, s)
 		}
+	case "head": // every unit is cut once inside its first 70 bytes (frame header / chunk header fields), at a different place each
+		for i, u := range units {
+			k := 1 + (i*7+r.Intn(70))%70
+			if k >= len(u.Bytes) {
+				segs = append(segs, append([]byte{}, u.Bytes...))
+				continue
+			}
+			segs = append(segs, append([]byte{}, u.Bytes[:k]...), append([]byte{}, u.Bytes[k:]...))
+		}
 	default: // random cuts
 		for len(all) > 0 {
 			n := 1 + r.Intn(len(all))
